@@ -333,32 +333,43 @@ def run_impl(exe, cases, tag):
     return L.run_programs(exe, [wire_case(c) for c in cases], tag)
 
 
-def s5_observation(ck, exe):
+def s5_scenarios(ck, exe):
+    """several consumers of one shared state, one of them a coroutine (finding S5, fixed by f1ffb7c): a Then(f) attached without an
+    executor to a SharedFutureOn must run inside the chain's executor whichever consumer is served first and whatever executor the
+    awaiting coroutine came from.  Oracle from the inheritance clause; failures carry the key of the finding."""
     try:
         r = subprocess.run([exe, "--s5"], stdout=subprocess.PIPE, stderr=subprocess.PIPE, text=True, timeout=120)
+        out = r.stdout
     except subprocess.TimeoutExpired:
-        ck.notes.append("S5 observation timed out")
-        return
+        out = ""
     rows = []
-    for line in r.stdout.split("\n"):
+    for line in out.split("\n"):
         if line.startswith("{"):
             try:
                 rows.append(json.loads(line))
             except Exception:
                 pass
-    ck.cov["s5_observation"] = rows
-    bad = [x for x in rows if x.get("crash") is not None or x.get("then_ran_inside_m0") is False]
-    if bad:
-        what = ("Then(f) attached to a SharedFutureOn (chain on m0) while a coroutine whose own executor is %s awaits the same shared "
-                "state, consumer order %s: the continuation ran with stamp %s, not inside m0 (PromiseType::Impl swaps the shared core's "
-                "_executor with the coroutine's; the shared core holds %s afterwards)" % (
-                    bad[0].get("coroutine_executor"), bad[0].get("order"), bad[0].get("then_stamp"), bad[0].get("shared_core_executor_after")))
-        known = any(k[0] == "known" and k[1] == ck.pid and runner._field(k[2], "key") == KEY_S5 for k in vlib.known_findings())
-        if known:
-            ck.hits.append(dict(what=what, key=KEY_S5, replay=dict(harness="h_c05", args=["--s5"], key=KEY_S5, observed=bad[0])))
+    ck.cov["shared_state_with_awaiting_coroutine"] = rows
+    if len(rows) != 4:
+        ck.broken.append(dict(name="S5 scenarios of harness h_c05 (--s5)", detail="expected 4 rows, got: %s" % out[-1500:]))
+        return 0
+    ok = 0
+    for x in rows:
+        desc = ("Then(f) attached without an executor to a SharedFutureOn whose chain is on m0, while a coroutine whose own executor is %s "
+                "awaits the same shared state (consumer order %s): the continuation ran with stamp %s (executor %s), the shared core "
+                "holds %s afterwards" % (x.get("coroutine_executor"), x.get("order"), x.get("then_stamp"),
+                                         (x.get("then_stamp") or 0) // BASE, x.get("shared_core_executor_after")))
+        if x.get("crash") is not None or x.get("then_ran_inside_m0") is not True:
+            # property text: "runs on the executor inherited along the chain"
+            ck.hits.append(dict(what=desc + "; it must run inside m0 (executor inherited along the chain)", key=KEY_S5,
+                                replay=dict(harness="h_c05", args=["--s5"], key=KEY_S5, observed=x)))
+        elif x.get("then_stamp") != BASE + 2:
+            # model (c05_inherit): the step's core is handed to the inherited executor as a job of its own — m0's second job
+            ck.broken.append(dict(name="correspondence Place (c05_inherit) vs implementation on the shared-state scenarios", key=KEY_S5,
+                                  detail=desc + "; the model hands the step to m0 as m0's job 1 (stamp %d)" % (BASE + 2)))
         else:
-            ck.notes.append("S5 observed (inheritance clause through a SharedFutureOn; reported, not counted as a violation until the lead "
-                            "records key=%s): %s" % (KEY_S5, what))
+            ok += 1
+    return ok
 
 
 def main(ck):
@@ -370,8 +381,8 @@ def main(ck):
         "and fulfils late promises one at a time); hand-off timing is C01's subject",
         "where an invocation runs is modelled for invocations handed to an executor (Then(e,f), Then(f), Run(e,f), AsyncContract(e,f), "
         "co_await On(e)); a ThenInline callback runs wherever its predecessor completes, which the property does not constrain",
-        "one consumer per SharedFuture in the programs; several consumers of one shared state with an awaiting coroutine among them: see "
-        "coverage.s5_observation",
+        "one consumer per SharedFuture in the generated programs; several consumers of one shared state with an awaiting coroutine among "
+        "them (finding S5, fixed by f1ffb7c) are the four hand-written scenarios of `h_c05 --s5`, checked by their own oracle",
         "configuration BC (shipped configuration + coroutines, no fault layer), single thread",
     ]
     ck.cov["trusted_base"] = [
@@ -472,7 +483,7 @@ def main(ck):
         ck.broken.append(dict(name="correspondence Place.drun vs implementation", detail="%s\ncase: %s" % (why, w)))
     if bad:
         ck.notes.append("%d cases do not correspond" % len(bad))
-    s5_observation(ck, exe)
+    ck.cov["shared_state_scenarios_passed"] = s5_scenarios(ck, exe)
 
 
 def replay(ck, path):
@@ -482,7 +493,8 @@ def replay(ck, path):
     if rp.get("args"):
         r = subprocess.run([exe] + rp["args"], stdout=subprocess.PIPE, text=True, timeout=120)
         print(r.stdout)
-        return 1 if '"then_ran_inside_m0":false' in r.stdout or '"crash"' in r.stdout else 0
+        rows = [json.loads(l) for l in r.stdout.split("\n") if l.startswith("{")]
+        return 1 if len(rows) != 4 or any(x.get("crash") is not None or x.get("then_ran_inside_m0") is not True for x in rows) else 0
     if not rp.get("case"):
         print("nothing to replay: %s" % json.dumps(d)[:2000])
         return 0
